@@ -73,8 +73,11 @@ Definition set_peer (s : vstate) (p : peer) (x : vpeer) : vstate :=
 
 (* sync_detect + signal_component_changed.  Changed<T> is ONE flag, raised both by a local write
    and by a network apply: here it is [dirty || token].  If the token is present it is removed and
-   NOTHING is queued -- this also swallows a local write that landed between the network apply and
-   this detector run (a lost local update; exhibited by [C02_conflict_example]). *)
+   NOTHING is queued.  The token remembers the change tick of the network apply and is only honoured
+   if the component has not been written since (fix e13e196): here a [VWrite] clears the token, so a
+   local write that lands between the network apply and this detector run IS announced ([ex_swallow]).
+   A local write that landed BEFORE the network apply (dirty and token both set) is still swallowed:
+   its value has been overwritten by the applied one. *)
 Definition vdetect (x : vpeer) : vpeer :=
   if token x then VPeer (cur x) false false (outq x)
   else VPeer (cur x) false false (outq x ++ match cur x with Some v => [v] | None => [] end).
@@ -84,7 +87,7 @@ Definition vstep (s : vstate) (e : vevent) : option vstate :=
   | VWrite p v =>
       match vp s !! p with
       | None => None
-      | Some x => Some (set_peer s p (VPeer (Some v) true (token x) (outq x)))
+      | Some x => Some (set_peer s p (VPeer (Some v) true false (outq x)))   (* a write invalidates the token *)
       end
   | VDetect p =>
       match vp s !! p with
@@ -203,7 +206,8 @@ Fixpoint total_sent (s : vstate) (tr : list vevent) : nat :=
    drain_separated: between two VWrite by DIFFERENT peers the state is quiescent at least once.
    joiners_settled: between [VJoin c] and a later [VWrite c _] the state is quiescent at least once
    (the snapshot travelling to c is a host message that conflicts with c's own write:
-   see [C02_join_write_refuted]). [blk] = the peers that joined since the last quiescent state. *)
+   see [C02_join_window_refuted]; since fix e13e196 the weaker [joiners_received], end of this file, is
+   enough). [blk] = the peers that joined since the last quiescent state. *)
 Fixpoint ds_from (g : option peer) (s : vstate) (tr : list vevent) : bool :=
   match tr with
   | [] => true
@@ -274,12 +278,17 @@ Example ex_coalesce :
   displayed 0%N (vinit 2) [VWrite 1 10; VWrite 1 20; VDetect 1; VSend 1; VDeliver 1 0]%N = [20%N].
 Proof. vm_compute. reflexivity. Qed.
 
-(* a local write between a network apply and the next detector run is swallowed with the token *)
+(* a local write between a network apply and the next detector run is NOT swallowed any more (it was
+   before fix e13e196): the write clears the token, the detector queues 99, everybody ends with 99 *)
 Example ex_swallow :
   (fun s => (view s [0; 1; 2]%N, poutq s 2%N)) <$>
   vrun (vinit 2) [VWrite 1 10; VDetect 1; VSend 1; VDeliver 1 0; VDeliver 0 2; VWrite 2 99; VDetect 2; VDetect 0]%N
-  = Some (([Some 10; Some 10; Some 99]%N, true), []).
-Proof. vm_compute. reflexivity. Qed.
+  = Some (([Some 10; Some 10; Some 99]%N, false), [99%N]) /\
+  (fun s => view s [0; 1; 2]%N) <$>
+  vrun (vinit 2) [VWrite 1 10; VDetect 1; VSend 1; VDeliver 1 0; VDeliver 0 2; VWrite 2 99; VDetect 2; VDetect 0;
+                  VSend 2; VDeliver 2 0; VDeliver 0 1; VDetect 0; VDetect 1]%N
+  = Some ([Some 99; Some 99; Some 99]%N, true).
+Proof. vm_compute. auto. Qed.
 
 (* a join while an update is in flight *)
 Example ex_join :
@@ -289,3 +298,116 @@ Example ex_join :
                   VDetect 0; VDetect 2; VDetect 3]%N
   = Some ([Some 20; Some 20; Some 20; Some 20]%N, true).
 Proof. vm_compute. reflexivity. Qed.
+
+(* ---------- C09 (component part): arming, effective events, termination measure ---------------
+   Additions only; everything is executable. Proofs: ValuesProofs.v, Part 9. *)
+
+(* [varmed s p]: p is going to announce something without any further write: its queue is non-empty, or
+   its change flag was raised by a local write and no token will swallow it. *)
+Definition armedx (x : vpeer) : bool :=
+  match outq x with [] => false | _ => true end || (dirty x && negb (token x)).
+Definition varmed (s : vstate) (p : peer) : bool := armedx (getp s p).
+
+(* an event that does something: a detector run with the change flag up, a send of a non-empty queue,
+   any delivery *)
+Definition effective (s : vstate) (e : vevent) : bool :=
+  match e with
+  | VDetect p => pdirty s p || ptoken s p
+  | VSend p => match poutq s p with [] => false | _ => true end
+  | VDeliver _ _ => true
+  | _ => false
+  end.
+
+(* tr runs from s and every event of it is effective *)
+Fixpoint effective_run (s : vstate) (tr : list vevent) : bool :=
+  match tr with
+  | [] => true
+  | e :: tr => effective s e && match vstep s e with Some s' => effective_run s' tr | None => false end
+  end.
+
+(* the events of the run that hand at least one message to the network *)
+Fixpoint emitters (s : vstate) (tr : list vevent) : list vevent :=
+  match tr with
+  | [] => []
+  | e :: tr =>
+      match vstep s e with
+      | None => []
+      | Some s' => (match sent_by s e with O => [] | S _ => [e] end) ++ emitters s' tr
+      end
+  end.
+
+Fixpoint sum_with {A} (f : A -> nat) (l : list A) : nat :=
+  match l with [] => O | x :: l => (f x + sum_with f l)%nat end.
+
+(* termination measure, n = number of connected clients:
+   a message host -> client costs 2 (its delivery, the flag it may raise);
+   a message client -> host costs 2n+2 (its delivery, the host's flag, n relayed messages);
+   a queued value costs one more than the messages its send creates;
+   a raised change flag costs 1, plus a queued value if no token swallows it. *)
+Definition qcost (n : nat) (p : peer) : nat := if (p =? host)%N then (2 * n + 1)%nat else (2 * n + 3)%nat.
+Definition peer_cost (n : nat) (p : peer) (x : vpeer) : nat :=
+  ((if dirty x || token x then 1 else 0) + (if dirty x && negb (token x) then qcost n p else 0) +
+   length (outq x) * qcost n p)%nat.
+Definition down_msgs (s : vstate) : nat := sum_with (fun c => length (link s host c)) (vconn s).
+Definition up_msgs (s : vstate) : nat := sum_with (fun c => length (link s c host)) (vconn s).
+Definition vmeasure (s : vstate) : nat :=
+  let n := length (vconn s) in
+  (sum_with (fun p => peer_cost n p (getp s p)) (host :: vconn s) + 2 * down_msgs s + (2 * n + 2) * up_msgs s)%nat.
+
+(* traffic potential, M = a bound on the number of connected clients: the messages the pending work can
+   still cause (an armed flag or a queued value: M; a message towards the host: its M-1 relays) *)
+Definition armed_units (x : vpeer) : nat := ((if dirty x && negb (token x) then 1 else 0) + length (outq x))%nat.
+Definition vpot (M : nat) (s : vstate) : nat :=
+  (sum_with (fun p => armed_units (getp s p)) (host :: vconn s) * M + up_msgs s * (M - 1))%nat.
+
+(* one effective plain event of a well-formed non-quiescent state, None if there is none *)
+Definition peer_event (s : vstate) (p : peer) : option vevent :=
+  if pdirty s p || ptoken s p then Some (VDetect p)
+  else match poutq s p with
+       | _ :: _ => Some (VSend p)
+       | [] => match link s host p, link s p host with
+               | _ :: _, _ => Some (VDeliver host p)
+               | [], _ :: _ => Some (VDeliver p host)
+               | [], [] => None
+               end
+       end.
+Fixpoint first_some {A B} (f : A -> option B) (l : list A) : option B :=
+  match l with
+  | [] => None
+  | x :: l => match f x with Some y => Some y | None => first_some f l end
+  end.
+Definition next_event (s : vstate) : option vevent := first_some (peer_event s) (host :: vconn s).
+
+(* a drain schedule: effective plain events until none is left (or the fuel runs out) *)
+Fixpoint vdrain (fuel : nat) (s : vstate) : list vevent :=
+  match fuel with
+  | O => []
+  | S k => match next_event s with
+           | None => []
+           | Some e => match vstep s e with Some s' => e :: vdrain k s' | None => [] end
+           end
+  end.
+
+(* nobody is armed (checked on the existing peers; an absent peer is never armed) *)
+Definition unarmedb (s : vstate) : bool := forallb (fun p => negb (varmed s p)) (host :: vconn s).
+
+(* ---------- the residue of [joiners_settled] after fix e13e196 -----------------------------------
+   joiners_received: a client that joined since the last quiescent state does not write while its
+   snapshot is still travelling towards it (weaker than [joiners_settled]: see
+   [joiners_settled_received]; still needed: see [C02_join_window_refuted]). *)
+Fixpoint jr_from (blk : list peer) (s : vstate) (tr : list vevent) : bool :=
+  match tr with
+  | [] => true
+  | e :: tr =>
+      let blk := if vquiescentb s then [] else blk in
+      match vstep s e with
+      | None => true
+      | Some s' =>
+          match e with
+          | VWrite p _ => bool_decide (p ∉ blk \/ link s host p = []) && jr_from blk s' tr
+          | VJoin c => jr_from (c :: blk) s' tr
+          | _ => jr_from blk s' tr
+          end
+      end
+  end.
+Definition joiners_received (s : vstate) (tr : list vevent) : Prop := jr_from [] s tr = true.
